@@ -132,10 +132,11 @@ def _prog(ops):
 def gen_case(rng, tier, idx):
     """programs for the interpreter rule of the harness: 01 k ty = node, 02 k n data = set attachment, 03 k = clear,
     04 a b = edge, 05 a b = delete edge, 06 k = delete node"""
-    style = idx % 5
+    style = idx % 7
     nmax = 5 if tier == "quick" else 8
     n = rng.randint(3, nmax)
-    wls = 2 if style in (3, 4) else 1
+    wls = 2 if style in (3, 4, 6) else 1
+    heads = 2 if style in (5, 6) else 1     # two writer heads per worldline: two commits on one worldline in one SuperTick
     ticks = []
     def att(k):
         ln = rng.choice([1, 2, 3, 5, 8])
@@ -169,7 +170,15 @@ def gen_case(rng, tier, idx):
     split = rng.randint(1, max(1, n - 1))
     for i, intents in enumerate(ticks):
         parts = []
-        for ops in intents:
+        for j, ops in enumerate(intents):
+            if heads == 2:
+                # both heads get work in most passes (the second commit of the pass must chain to the first)
+                parts.append("0." + _prog(ops))
+                if rng.random() < 0.8:
+                    parts.append("0h1." + _prog(att(rng.randint(0, 3)) if rng.random() < 0.6 else [1, rng.randint(0, 3), rng.randint(0, 5)]))
+                if wls == 2 and rng.random() < 0.7:
+                    parts.append(rng.choice(["1.", "1h1."]) + _prog(att(rng.randint(0, 3))))
+                continue
             parts.append("0." + _prog(ops))
             if wls == 2:
                 # the second worldline shares a prefix (same programs => same commit ids), then diverges
@@ -177,7 +186,7 @@ def gen_case(rng, tier, idx):
                 parts.append("1." + _prog(ops2))
         toks.append(",".join(parts) if parts else "-")
     cps = ",".join(str(t) for t in sorted({rng.randint(0, n), rng.randint(1, n)}))
-    return f"wls={wls} prog={'/'.join(toks)} cps={cps}"
+    return f"wls={wls} prog={'/'.join(toks)} cps={cps}" + (f" heads={heads}" if heads > 1 else "")
 
 
 # ------------------------------------------------------------------------------------------------ parsing
